@@ -106,27 +106,28 @@ func (r *GroupRec) UntaintedNow() []string {
 
 // ScanRecord is everything the monitors may look at for one scan.
 type ScanRecord struct {
-	Index       int
-	Epoch       int
-	Restarted   bool // first scan of a controller incarnation
-	T0, T1      time.Time
-	Synced      bool
-	Hung        bool // RunOnce never returned: every goroutine of the scan was blocked for good
-	View        *sim.View
-	ViewAfter   *sim.View // the cache content when the scan returned (escalator must not have touched it)
-	API         map[string]*v1.Node
-	ASGs        map[string]ASGSnap
-	Entries     []sim.Entry
-	Prelude     []sim.Entry // entries before the first group marker (refresh, rebuilds)
-	Groups      []*GroupRec
-	Err         error
-	Panic       any
-	Stack       string
-	FatalExit   bool // logrus Fatal (documented exit after 3 fleet failures)
-	BuildErr    error
-	FaultsArmed []sim.Fault
-	FaultHits   int
-	RealDur     time.Duration
+	Index         int
+	Epoch         int
+	Restarted     bool // first scan of a controller incarnation
+	T0, T1        time.Time
+	Synced        bool
+	MidScanChange bool // somebody else changed a cloud group between the scan's refresh and its writes
+	Hung          bool // RunOnce never returned: every goroutine of the scan was blocked for good
+	View          *sim.View
+	ViewAfter     *sim.View // the cache content when the scan returned (escalator must not have touched it)
+	API           map[string]*v1.Node
+	ASGs          map[string]ASGSnap
+	Entries       []sim.Entry
+	Prelude       []sim.Entry // entries before the first group marker (refresh, rebuilds)
+	Groups        []*GroupRec
+	Err           error
+	Panic         any
+	Stack         string
+	FatalExit     bool // logrus Fatal (documented exit after 3 fleet failures)
+	BuildErr      error
+	FaultsArmed   []sim.Fault
+	FaultHits     int
+	RealDur       time.Duration
 }
 
 // Faulty reports whether any injected failure was hit in the scan.
@@ -224,6 +225,7 @@ func (w *World) Scan(sync bool, order []string) *ScanRecord {
 	for _, f := range w.J.Faults {
 		rec.FaultsArmed = append(rec.FaultsArmed, *f)
 	}
+	rec.MidScanChange = len(w.A.BumpAfterDescribe) > 0
 	for _, gs := range w.Cfg.Groups {
 		for _, v := range gaugeVecs {
 			v.WithLabelValues(gs.Opts.Name).Set(GaugeUnset)
@@ -308,21 +310,31 @@ func (w *World) analyse(rec *ScanRecord) {
 		rec.Groups[g] = gr
 	}
 	cur := -1
+	listed := false // the current segment has seen its pod list (every processed group lists its pods exactly once, first thing)
+	open := func(g int, at time.Time) {
+		cur, listed = g, false
+		gr := rec.Groups[g]
+		gr.Processed = true
+		gr.Start = at
+		if t0, ok := w.LockT0[g]; ok && at.Sub(t0) < Dur(w.Cfg.Groups[g].Opts.ScaleUpCoolDownPeriod) {
+			gr.Locked = true
+		}
+	}
 	for _, e := range rec.Entries {
 		if e.Kind == sim.MGetNodeGroup {
-			if g := w.GroupOfASG(e.ASG); g >= 0 && g != cur {
-				// RunOnce walks the groups in configuration order; a marker for a later
-				// group starts that group's segment
-				if g > cur {
-					cur = g
-					gr := rec.Groups[g]
-					gr.Processed = true
-					gr.Start = e.T
-					if t0, ok := w.LockT0[g]; ok && e.T.Sub(t0) < Dur(w.Cfg.Groups[g].Opts.ScaleUpCoolDownPeriod) {
-						gr.Locked = true
-					}
-				}
+			// RunOnce walks the groups in configuration order; a look-up of a later group's cloud
+			// group starts that group's segment
+			if g := w.GroupOfASG(e.ASG); g > cur {
+				open(g, e.T)
 			}
+		}
+		if e.Kind == sim.KListPods {
+			// ... and so does a pod list that is not the current segment's own: the segmentation must
+			// not depend on escalator looking its cloud group up at that point
+			if (cur < 0 || listed) && cur+1 < ng {
+				open(cur+1, e.T)
+			}
+			listed = true
 		}
 		if cur < 0 {
 			rec.Prelude = append(rec.Prelude, e)
@@ -455,6 +467,11 @@ func (w *World) derive(rec *ScanRecord, gr *GroupRec) {
 			}
 		case sim.ASetDesired, sim.ACreateFleet:
 			gr.Increase = append(gr.Increase, *e)
+			if e.Kind == sim.ASetDesired && e.OK() && e.Value > e.PreDesired && !gr.ScaleUpOK {
+				// the cloud accepted a raise of the desired capacity: the cool-down starts here, whatever
+				// IncreaseSize goes on to report (the marker below, written when it returns, refines the time)
+				gr.ScaleUpOK, gr.ScaleUpAt = true, e.T
+			}
 		case sim.MIncreaseSize:
 			gr.IncreaseCalls = append(gr.IncreaseCalls, *e)
 			if e.OK() {
